@@ -477,14 +477,15 @@ pub fn run<const L: usize>(cfg: &RunCfg) -> RunStats {
             snap: Snap::take(&b),
         }
     };
+    // (applied incrementally on one book: scripted bases may hold thousands of operations)
+    let mut base_book = OrderBook::<L>::new(p.start_time, p.tick, p.start_trading);
     for (i, step) in cfg.base.iter().enumerate() {
         let hist = cfg.base[..=i].to_vec();
-        let real = util::subject((|| {
-            let mut book = build_book::<L>(p, &hist[..i]);
-            let ret = apply_real(&mut book, step);
-            let after = Snap::take(&book);
+        let real = util::subject(|| {
+            let ret = apply_real(&mut base_book, step);
+            let after = Snap::take(&base_book);
             (ret, after)
-        }));
+        });
         let mut m2 = root.model.clone();
         let m_ret = apply_model(&mut m2, step);
         let (ret, after) = match real {
